@@ -13,6 +13,10 @@ use crate::{
 
 #[derive(Clone, Copy, Debug, PartialEq, Eq)]
 pub enum A {
+    /// the client waits two ticks (whatever is under way gets done)
+    Pause,
+    /// a command whose handler publishes on the topic the actor itself subscribed to in started()
+    CtxPublish,
     Send,
     Call,
     Stop,
@@ -196,6 +200,8 @@ fn make_case_t(via: StreamVia, prefill: &[u32], prefill_close: bool, feeder: &[O
                 A::Stop => Op::Stop(H::Addr(0)),
                 A::CtxStop => Op::Cmd(H::Addr(0), msg_id(c, i), Action::Stop),
                 A::Drop => Op::Drop(H::Addr(0)),
+                A::CtxPublish => Op::Cmd(H::Addr(0), msg_id(c, i), Action::Publish { topic: 1, id: 77 }),
+                A::Pause => Op::Sleep(2),
                 A::CallGiveUp => Op::CallAbandon(H::Addr(0), msg_id(c, i)),
             })
             .collect();
@@ -211,6 +217,10 @@ fn make_case_t(via: StreamVia, prefill: &[u32], prefill_close: bool, feeder: &[O
     items.extend(feeder.iter().filter_map(|o| if let Op::Feed(i) = o { Some(*i) } else { None }));
     let closes = prefill_close || feeder.iter().any(|o| matches!(o, Op::CloseStream));
     let mut role = RoleCfg { default_work: Work { yields, ..Work::default() }, ..RoleCfg::default() };
+    if progs.iter().flatten().any(|a| matches!(a, A::CtxPublish)) {
+        // the stream-attached actor is a broker subscriber: the broker knows it, it does not hold it
+        role.started_actions.push(Action::Subscribe { topic: 1 });
+    }
     let ticking = TICKING.with(|t| t.get());
     if ticking {
         // a stream-attached actor may run timers like any other: they end with it, they do not
@@ -394,6 +404,18 @@ fn cases(tier: Tier) -> Vec<Case> {
         c
     }));
     TICKING.with(|t| t.set(false));
+    // a stream-attached actor that is a broker subscriber and has received a publication: the
+    // broker does not keep it going either
+    #[cfg(any(feature = "rt-tokio", feature = "rt-async"))]
+    for via in [StreamVia::SpawnOnStream, StreamVia::BuildOnStream] {
+        for (pre, feeder) in [(vec![], vec![]), (vec![71], vec![])] {
+            for p in [vec![A::CtxPublish, A::Pause], vec![A::CtxPublish, A::Pause, A::Send], vec![A::CtxPublish, A::CtxPublish, A::Pause, A::Drop]] {
+                let mut c = make_case(via, &pre, false, &feeder, &[p], false, 0, Some(4));
+                c.exec.horizon = 12;
+                v.push(c);
+            }
+        }
+    }
     // an item handler that stops the actor from inside (item 72 where the stream yields it)
     ITEM_STOP.with(|i| i.set(Some(72)));
     v.extend(all_cases(tier).into_iter().filter(|c| c.desc.contains("calls ctx.stop()")));
